@@ -31,6 +31,16 @@ theorem verdict : (classify Generated.factsC23).Sound (Holds (cfgOf Generated.fa
 #print axioms refutes_nameDropped
 #print axioms nameDropped_partial
 #print axioms keepPartial_partial
+#print axioms migrate_existing_kept
+#print axioms migrate_no_silent_drop
+#print axioms refutes_appendsExisting
+#print axioms appendsExisting_mixes
+#print axioms appendsExisting_destroys
+#print axioms appendsExisting_partial
+#print axioms good_refuses_existing
+#print axioms unstorable_key_aborts
+#print axioms Hv.MigrateV2.long_key_refused
+#print axioms Hv.MigrateV2.empty_key_refused
 #print axioms Overflow.overflow_duplicates_key
 #print axioms Overflow.no_duplicate_when_recorded
 
